@@ -50,6 +50,37 @@ func init() {
 	})
 
 	Register(&Family{
+		// the multi-source operators: their own locks are taken on the completion path too
+		Name:   "C06.comb",
+		Props:  []string{"C06", "C13"},
+		Weight: 3,
+		Gen: func(g *Gen) *Scn {
+			sc := &Scn{Family: "C06.comb"}
+			name := combOrder[g.Intn(len(combOrder))]
+			c := combs[name]
+			sc.Sub = name
+			k := g.Range(c.Min, c.Max)
+			total := 0
+			for i := 0; i < k; i++ {
+				mode := g.Pick("sync", "async", "async", "timed", "hot")
+				script := genScript(g, (i+1)*10, 3, "CCCE-", mode == "timed")
+				total += len(script)
+				sc.Sources = append(sc.Sources, SrcSpec{Mode: mode, Script: script})
+			}
+			sc.SetInt("cut", g.Range(-1, total))
+			if g.Bool(0.5) {
+				sc.SetInt("cut", -1) // let the stream end by itself: Wait returns after the terminal callback
+			}
+			sc.SetInt("unsubs", g.Range(1, 3))
+			sc.SetInt("waits", g.Range(1, 2))
+			sc.SetInt("inside", g.Intn(2))
+			sc.SetInt("repeat", g.Intn(2))
+			return sc
+		},
+		Run: runC06,
+	})
+
+	Register(&Family{
 		Name:   "C06.collect",
 		Props:  []string{"C06"},
 		Weight: 2,
@@ -102,7 +133,23 @@ func init() {
 
 func runC06(e *Env) {
 	sc := e.Sc
-	o, srcs := e.Pipeline()
+	var o ro.Observable[int]
+	var srcs []*Src
+	if sc.Family == "C06.comb" {
+		c := combs[sc.Sub]
+		var obs []ro.Observable[int]
+		for _, sp := range sc.Sources {
+			s := e.NewSrc(sp)
+			srcs = append(srcs, s)
+			obs = append(obs, s.Obs())
+		}
+		if c == nil || len(obs) < c.Min || len(obs) > c.Max {
+			return
+		}
+		o = c.Build(e, obs)
+	} else {
+		o, srcs = e.Pipeline()
+	}
 	cut := sc.Int("cut", -1)
 	tdpanic := sc.Int("tdpanic", 0) == 1
 	if tdpanic {
@@ -206,6 +253,16 @@ func runC06(e *Env) {
 		}
 		if ok && !w.returned {
 			e.Violate("C06", "wait-hangs", fmt.Sprintf("subscription is closed but Wait #%d never returned", i))
+		}
+	}
+	// the unsubscription itself (explicit, or the one a terminal notification triggers) must finish: an actor
+	// parked on a mutex at quiescence means it deadlocked inside the teardown chain
+	if ok {
+		for _, a := range e.K.Actors() {
+			if a.Blocked() && a.PendingKind().String() == "lock" {
+				e.Violate("C06", "unsubscription-deadlocked", fmt.Sprintf("the subscription reports closed but %s is blocked on a lock at quiescence: the teardown chain never finished (trace %s)", a.Site, rec.Trace()))
+				break
+			}
 		}
 	}
 	// cut rule (sound only when every delivery happens inside a producer call: synchronous chains)
